@@ -73,6 +73,24 @@ func options(kind string, out *strings.Builder) []risor.Option {
 		opts = append(opts, risor.WithGlobals(map[string]any{"ga": 1, "gb": "two", "gc": []int{3}}))
 	case "deny":
 		opts = append(opts, risor.WithoutGlobals("exec", "os.exit", "math.abs", "strings.repeat"))
+	case "mounts", "mounts3":
+		// a host OS assembled from nested mounts, each an in-memory file system that knows its own name, plus an
+		// environment and users: which mount serves a path, and in which order anything is listed, is the host's
+		// configuration and not the order of a Go map
+		mounts := map[string]*ros.Mount{}
+		targets := []string{"/", "/data", "/data/cache", "/data/cache/deep", "/var", "/data2"}
+		if kind == "mounts3" {
+			targets = targets[:3] // three mounts: every order of the mount table is tried
+		}
+		for _, target := range targets {
+			fs := ros.NewMockFS()
+			fs.WriteFile("entry.txt", []byte("served by "+target), 0o644)
+			fs.WriteFile("/entry.txt", []byte("served by "+target), 0o644)
+			mounts[target] = &ros.Mount{Source: fs, Target: target}
+		}
+		vos = ros.NewVirtualOS(context.Background(), ros.WithStdout(logFile{out}), ros.WithMounts(mounts),
+			ros.WithEnvironment(map[string]string{"B": "2", "A": "1", "CC": "3", "D": "4"}), ros.WithCwd("/data/cache"))
+		opts = []risor.Option{risor.WithOS(vos)}
 	case "override":
 		opts = append(opts, risor.WithGlobalOverride("len", object.NewBuiltin("len", func(ctx context.Context, args ...object.Object) object.Object { return object.NewInt(7) })),
 			risor.WithGlobalOverride("math.abs", object.NewBuiltin("abs", func(ctx context.Context, args ...object.Object) object.Object { return object.NewInt(9) })))
@@ -279,6 +297,26 @@ func corpus(thorough bool) []caseT {
 			}
 			add(fmt.Sprintf("hand%d/%s", i, o), h, o)
 		}
+	}
+	rd := func(p string) string {
+		return "try(func() { return string(os.read_file(\"" + p + "\")) }, func(e) { return \"error: \" + string(e) })"
+	}
+	for i, src := range []string{
+		rd("/data/cache/entry.txt"), rd("/data/cache/deep/entry.txt"), rd("/data/entry.txt"), rd("/entry.txt"), rd("/data2/entry.txt"), rd("/var/entry.txt"), rd("entry.txt"), rd("deep/entry.txt"), rd("../entry.txt"),
+		rd("/data/cache/deep/x/../entry.txt"), rd("/data/cachex/entry.txt"), rd("/data/cache"),
+		"[" + rd("/data/cache/entry.txt") + ", " + rd("/data/cache/entry.txt") + ", " + rd("/data/cache/deep/entry.txt") + ", " + rd("/data/entry.txt") + "]",
+		"try(func() { os.write_file(\"/data/cache/new.txt\", \"n\"); return [" + rd("/data/cache/new.txt") + ", " + rd("/data/new.txt") + "] }, func(e) { return string(e) })",
+		"try(func() { return os.stat(\"/data/cache/deep/entry.txt\").name }, func(e) { return string(e) })",
+		"try(func() { return os.read_dir(\"/data/cache\").map(func(e) { return e.name }) }, func(e) { return string(e) })",
+		"try(func() { return os.read_dir(\"/\").map(func(e) { return e.name }) }, func(e) { return string(e) })",
+		"os.environ()", "os.getenv(\"A\") + os.getenv(\"CC\")", "os.getwd()",
+		"try(func() { os.rename(\"/data/cache/entry.txt\", \"/data/cache/deep/moved.txt\"); return 1 }, func(e) { return string(e) })",
+		"try(func() { os.chdir(\"/data\"); return " + rd("entry.txt") + " }, func(e) { return string(e) })",
+		"try(func() { return cat(\"/data/cache/entry.txt\") }, func(e) { return string(e) })",
+		"try(func() { return ls(\"/data\") }, func(e) { return string(e) })",
+	} {
+		add(fmt.Sprintf("mounts%d", i), src, "mounts")
+		add(fmt.Sprintf("mounts3-%d", i), src, "mounts3")
 	}
 	for i, src := range containerPrograms(thorough) {
 		add(fmt.Sprintf("container%d", i), src, "default")
